@@ -216,15 +216,19 @@ PROPS = {
                 "exactly coplanar points (coordinate planes, plane x==y, great circle through a and b, antipodes), identical / "
                 "1-2 ulp apart / antipodal pairs, tangent-plane lattices (1, u*2^-k, v*2^-k) for k in 30..1074 (collinear and "
                 "sub-normal), mirror-image and equal-direction pairs for distances, chord limits at the computed distance +-3 ulps, "
-                "0, 4, 45 degrees, Inf, negative; arbitrary finite (non-unit, huge, sub-normal) vectors for the exact stages only; "
+                "0, 4, 45 degrees, Inf, negative; limits beyond 90 degrees (r2 in (2, 4], 4 - k ulps, exactly 4) with nearly antipodal points "
+                "whose norms sit at the upper end of what Normalize produces (constructed PointFromCoords inputs for which all ten roundings "
+                "align) or exactly antipodal IsUnit points with float norm2 = 1 + 10u (family D54); "
+                "arbitrary finite (non-unit, huge, sub-normal) vectors for the exact stages only; "
                 "4- and 5-tuples from one pool; every line carries `st:<stage>` naming the stage that decided; "
                 "non-trivial = not decided by the first float triage (stage other than tri / cos) or an exact-stage / tuple / "
                 "OrderedCCW op; distinct = distinct (op, arguments)",
         "nontrivial": lambda l: (not l.startswith("f64")) and (not l.startswith("c02const")) and
                                 (" st:tri" not in l) and (" st:cos" not in l),
-        "trusted_base": ["NOT proved (partial): sufficiency of the float error constants maxDeterminantError, detErrorMultiplier, "
-                         "the cosDistance / sin2Distance error formulas and 3.046875*dblEpsilon; they are hypotheses of the "
-                         "`..._given_error_bound` theorems and are searched on every run (each float stage: non-zero => equals exact sign)",
+        "trusted_base": ["the float error constants are PROVED sufficient (maxDeterminantError, detErrorMultiplier, 3.046875*dblEpsilon: packages triage; "
+                         "the cosDistance / sin2Distance error formulas: package floaterr3, `compareDistances_exact`, `compareDistance_exact` on the domain "
+                         "| |p|^2 - 1 | <= 8.25*2^-53 = outputs of Normalize, after repair D54 of triageCompareCosDistance: cosRError lacked math.Abs); "
+                         "every float stage is still searched on every run (non-zero => equals exact sign)",
                          "NOT proved (stated as `sos_global : Prop`): one perturbation per point serves all triples of a finite set; "
                          "checked on every generated 4-/5-tuple against a global rank-based perturbed-determinant reference "
                          "and the Grassmann-Pluecker relations",
@@ -232,7 +236,8 @@ PROPS = {
                          "decidable hypothesis, not a bit-level lemma",
                          "big.Float at 2^26 bits is exact on float64 inputs (modelled by integer arithmetic at scale 2^1074)"],
         "assumptions": ["points are finite float64 vectors (no NaN / Inf: the real code panics in big.Float); float stages are judged only "
-                        "on unit-length points (|norm2 - 1| <= 5 eps, the C++ IsUnitLength contract; Go's IsUnit tolerates 5e-14)",
+                        "on unit-length points (|norm2 - 1| <= 5 eps, the C++ IsUnitLength contract; Go's IsUnit tolerates 5e-14); the distance theorems "
+                        "are proved on the narrower exact bound | |p|^2 - 1 | <= 8.25*2^-53 which every Normalize output satisfies",
                         "SignDotProd: |a|^2 <= 2 and |b|^2 <= 2; CompareDistance: r is a valid chord angle (0..4, -1 or +Inf), not NaN"],
     },
     "C19": {
@@ -670,8 +675,11 @@ PROPS["C16"] = {
             "KNOWN class F5 has its own clause hemi-antipodal (both edges within 2^-20 rad of antipodal); three such inputs are emitted by every shard. "
             "non-trivial = every isect line; distinct = distinct argument tuples",
     "nontrivial": lambda l: l.startswith("isect "),
-    "trusted_base": ["NOT proved (partial): the 8*2^-53 accuracy bound and unit length — judged on every line by the exact-arithmetic oracle",
-                     "the enclosure eps - eps^3/4 < sin eps (Mathlib Real.sin_gt_sub_cube) is used by the judge; cited, not re-proved",
+    "trusted_base": ["the 8*2^-53 bound is PROVED (Properties/C16_Accuracy.lean, package c16acc) for inputs outside the D38 class under StableSide "
+                     "(computed distances of weakly opposite sign, no deep underflow): accuracyClaim_partial / accuracyClaim_margin_partial; unit "
+                     "length PROVED for every non-collinear in-contract input with tolerance 10*2^-53 on |p| (intersection_unit); the 4*2^-53 form of "
+                     "UnitLengthClaim and the same-sign regime of the stable path stay judged on every line by the exact-arithmetic oracle",
+                     "the enclosure eps - eps^3/4 < sin eps (Mathlib Real.sin_gt_sub_cube) is used by the judge; C16Acc/Radians.lean proves the radian bound from it",
                      "Go's math/big.Float never rounds at 2^26 bits on these inputs and Float64() rounds to nearest even "
                      "(modelled incl. the sign of zero; tied by bit-exact comparison of intersectionExact on every line)"],
     "assumptions": ["arguments are unit length within the Normalize guarantee and CrossingSign(a0,a1,b0,b1) == Cross; "
@@ -681,7 +689,12 @@ PROPS["C16"] = {
                 "execute literally the same computation on every input with finite points, non-degenerate edges and different smaller endpoints "
                 "(CanonInput, implied by InContract); no KernelSym / DecisiveAt / OccwSym / GenPos hypothesis); GoEqualityClaim follows wherever the "
                 "result has no NaN coordinate (goEquality_of_fin). "
-                "UnitLengthClaim, AccuracyClaim are `def … : Prop` judged by the oracle; the inputs that refuted the claims before the repairs F1-F4 "
+                "AccuracyClaim: proved as accuracyClaim_partial under NotAntipodal (both edges shorter than pi - 2^-19.5) + StableSideIfAccepted, and as "
+                "accuracyClaim_margin_partial under the sharp HemiMargin; projection_bound_sound (the error estimate computed by `projection` IS an upper "
+                "bound), intersection_accurate_stable / _exact (sin of the angle <= 8u resp. 3u), intersection_radians; UnitLengthClaim: intersection_unit "
+                "(10u, non-collinear), intersection_unit_partial (collinear branch when the rule returns a vertex); NOT proved: the same-sign regime of the "
+                "stable estimate (F-a: no failing input in 1.4 M same-sign acceptances), the deep-underflow regime below 2^-400, the 4u form of the unit clause; "
+                "both claims are still judged by the oracle on every line; the inputs that refuted the claims before the repairs F1-F4 "
                 "are kept as kernel-checked regression examples; accuracyClaim_false records the KNOWN finding F5; "
                 "Properties/C16_Sym.lean keeps the theorems about the PRE-repair code (intersectionOld) as regression witnesses: sign symmetry of the "
                 "real kernels (kernelSym_real), the then-necessary side conditions, bitIdentityClaimOld_false, bitIdentityOld_violated_in_contract (D50)"],
